@@ -135,7 +135,7 @@ impl Parsable for Layout {
             let mut variants_map = HashMap::new();
             let mut variant_def = Vec::new();
             let mut variant_name: Option<SmallString> = None;
-            for raw_property in property_iter {
+            while let Some(raw_property) = property_iter.next() {
                 if !raw_property.is_variant_id() && variant_name.is_none() {
                     return Err(format_error!(
                         "Variant definition must start with a VariantId.",
@@ -165,6 +165,11 @@ impl Parsable for Layout {
                         ))
                     }
                     Ordering::Equal => {
+                        // A variant may end with properties of size 0 (constant values stored as default):
+                        // it is complete only when the next property starts another variant.
+                        if property_iter.peek().is_some_and(|p| !p.is_variant_id()) {
+                            continue;
+                        }
                         variants.push(Properties::new(common_size, variant_def).into());
                         variants_map.insert(variant_name.unwrap(), variants.len() as u8 - 1);
                         variant_def = Vec::new();
